@@ -6,28 +6,11 @@ import Emu2a.Model.Flow
 import Emu2a.Lemmas.Fin
 import Emu2a.Props.C09x.Second
 import Emu2a.Props.C09x.First
+import Emu2a.Props.C09x.Sound
 namespace Emu2a.C09
 open Emu2a Flow Isa Gen
 
 /-! ### The graph over-approximates the real sequencer -/
-
-/-- Whatever the flags, the ALU condition outputs and the interrupt flip-flop are, the real
-next-address function lands in `succs`. -/
-theorem next_in_succs (w : UWord) (ir : Nat) (fr : Byte) (a : AluOut) (p : Bool) :
-    Sig.nextAddr w ir fr a p ∈ succs w ir := by
-  unfold succs Sig.nextAddr nextWith Sig.am3
-  cases hm2 : w.mac2
-  · simp only [Bool.false_eq_true, ↓reduceIte]
-    unfold Sig.am1
-    cases w.mac1 <;> cases w.mac0 <;> cases (w.na % 2 == 1) <;> simp <;>
-      (first
-        | (cases Sig.al3 ir fr <;> simp)
-        | (cases flagBit fr C.flagC <;> simp)
-        | (cases a.c <;> simp)
-        | (cases a.z <;> simp)
-        | (cases a.n <;> simp)
-        | (cases Sig.al2 fr p <;> simp))
-  · simp
 
 /-- The micro-address always lies in the page selected by the instruction register
 (A8..A5 come from the opcode): the sequencer stays within the routine of the fetched opcode. -/
